@@ -152,3 +152,78 @@ func hasPlainTag(tags []string, p string) bool {
 	}
 	return false
 }
+
+// bindHeaderDebug: a source variable whose debug binding in the loop header block IS a header phi
+// (go/ssa's lowering of `for i := range n`: the phi is commented "rangeint.iter" and `i` is bound
+// to it inside the header) is made visible to the loop's invariants under its source name, with
+// the value that phi has in the state the invariants are evaluated in.
+func (vc *VC) bindHeaderDebug(header *ssa.BasicBlock, phiVals map[string]SVal, valueOf func(*ssa.Phi) SVal) {
+	for _, ins := range header.Instrs {
+		d, ok := ins.(*ssa.DebugRef)
+		if !ok || d.IsAddr || d.Object() == nil {
+			continue
+		}
+		phi, isPhi := d.X.(*ssa.Phi)
+		if !isPhi || phi.Block() != header {
+			continue
+		}
+		n := vc.eng.rn(vc.selfKey(), d.Object().Name())
+		if _, have := phiVals[n]; !have {
+			phiVals[n] = valueOf(phi)
+		}
+	}
+	if l := vc.loops[header]; l != nil {
+		if _, bound := rangeIntBound(l); bound != nil {
+			phiVals["rangeint.bound"] = vc.val(bound)
+		}
+	}
+}
+
+// rangeIntBound: for a loop that go/ssa produced from `for i := range n` (header commented
+// "rangeint.body", counter phi "rangeint.iter", latch "rangeint.loop" computing iter+1 < n),
+// returns the counter phi and the bound n.
+func rangeIntBound(l *loopInfo) (*ssa.Phi, ssa.Value) {
+	if l.header.Comment != "rangeint.body" {
+		return nil, nil
+	}
+	var iter *ssa.Phi
+	for _, ins := range l.header.Instrs {
+		if p, ok := ins.(*ssa.Phi); ok && p.Comment == "rangeint.iter" {
+			iter = p
+		}
+	}
+	if iter == nil {
+		return nil, nil
+	}
+	for b := range l.body {
+		if b.Comment != "rangeint.loop" {
+			continue
+		}
+		var inc ssa.Value
+		for _, ins := range b.Instrs {
+			if bo, ok := ins.(*ssa.BinOp); ok {
+				if bo.Op == token.ADD && bo.X == iter {
+					inc = bo
+				}
+				if bo.Op == token.LSS && inc != nil && bo.X == inc {
+					return iter, bo.Y
+				}
+			}
+		}
+	}
+	return nil, nil
+}
+
+// autoInvs: invariants the engine adds by itself - and proves like any other (on entry and on
+// every back edge). For range-over-int loops: 0 <= counter < n at the header, which is what the
+// lowering guarantees (the header is the first block of the body) and what the source-level loop
+// `for i := 0; i < n; i++` gives its body through the loop condition.
+func (vc *VC) autoInvs(l *loopInfo) []*Clause {
+	iter, bound := rangeIntBound(l)
+	if iter == nil {
+		return nil
+	}
+	_ = bound
+	e := &EBin{"&&", &EBin{"<=", &EInt{"0"}, &EIdent{"rangeint.iter"}}, &EBin{"<", &EIdent{"rangeint.iter"}, &EIdent{"rangeint.bound"}}}
+	return []*Clause{{Kind: "invariant", Text: "auto (range-over-int lowering): 0 <= counter && counter < n", E: e, Loop: l.ord, Ord: 900 + l.ord}}
+}
